@@ -18,7 +18,7 @@ META = {
                   'the list iterator yields the recursive bintree_traverse_list sequence on every right-leaning and every left-leaning list spine without modifying the heap; '
                   'the C recursive traversals equal the specification\'s traversals. All theorems are at full strength (no _partial). '
                   'The tie to the C source is a correspondence run: every shape <= 7 nodes (quick) / <= 9 nodes (thorough, 4862 shapes of 9 nodes), spines/zig-zags/complete trees and random shapes up to 200 nodes, list spines up to 90 list nodes.',
-    'level_note': 'Trusted: Lean kernel (axioms propext and Quot.sound only); the hand model lean/Librfn/Model/Bintree.lean (pointer and tag bit of `left` as independent components = the >= 2-byte alignment assumption; '
+    'level_note': 'Trusted: Lean kernel (axioms propext and Quot.sound only); the hand model lean/Librfn/Model/Bintree.lean (pointer and tag bit of `left` are independent components: this is exactly the assumption of the property that nodes are at least 2-byte aligned, so only bit 0 of a node address is free; the correspondence run exercises it at alignments 2, 4 and 8 by placing nodes at addresses 0, 2, 4 and 6 mod 8 in exactly-sized blocks — x86 tolerates the unaligned pointer fields and the harness is not built with -fsanitize=alignment; '
                   'the deallocator really frees; the is_list callback inspects its node and answers false for NULL); the model-vs-C tie is sampling (exhaustive over small shapes, not a proof about the C text): '
                   'visit sequences, iter.parent at each post-order visit, link/tag images after completion and in the middle of cut-short iterations, deallocator logs, ASan on individually malloc\'ed nodes. '
                   'Distinct node ids in the theorems correspond to distinct addresses of live nodes.',
@@ -146,7 +146,32 @@ def label(shape, perm=None):
     return root, cnt
 
 
-def tree_line(tree, n):
+OFFSETS = (0, 2, 4, 6)      # node address mod 8: the property grants no more than 2-byte alignment
+
+
+def align_of(line):
+    """per-node byte offsets named by a tree line (`… align o0 o1 …`, cycled over the nodes); [] if none"""
+    w = line.split()
+    if 'align' not in w:
+        return []
+    o = [int(x) for x in w[w.index('align') + 1:]]
+    n = int(w[1])
+    return [o[i % len(o)] for i in range(n)] if o else []
+
+
+def pick_align(rng, n, mode):
+    """mode: None | 2 | 4 | 6 (every node at that offset) | 'mixed' (per node, at least one node off the 8-byte grid)"""
+    if mode is None or n == 0:
+        return None
+    if mode == 'mixed':
+        o = [rng.choice(OFFSETS) for _ in range(n)]
+        if not any(o):
+            o[rng.below(n)] = rng.choice(OFFSETS[1:])
+        return o
+    return [mode]
+
+
+def tree_line(tree, n, offs=None):
     l = ['-'] * n; r = ['-'] * n
     stack = [tree]
     while stack:
@@ -160,7 +185,8 @@ def tree_line(tree, n):
     links = []
     for i in range(n):
         links += [l[i], r[i]]
-    return ' '.join(['tree', str(n), '-' if tree is None else str(tree[0])] + links)
+    suffix = ['align'] + [str(o) for o in offs] if offs and any(offs) else []
+    return ' '.join(['tree', str(n), '-' if tree is None else str(tree[0])] + links + suffix)
 
 
 def paren(tree):
@@ -324,12 +350,22 @@ def std_ops(rng, n, partial=True):
     return ops
 
 
-def history(rng, shape, mode):
+def history(rng, shape, mode, align=None):
     n = size(shape)
     perm = rng.shuffle(list(range(n))) if rng.chance(1, 3) else None
     tree, _ = label(shape, perm)
-    h = [tree_line(tree, n)]
-    if mode == 'exhaustive':
+    if align == 'any':
+        align = rng.choice([None, 2, 4, 6, 'mixed', 'mixed'])
+    h = [tree_line(tree, n, pick_align(rng, n, align))]
+    if mode == 'aligned':
+        # the tag lives in the low bit of `left`: post-order and free first, then the threads, one cut-short post-order
+        h += ['iter post', 'image', 'iter in', 'image', 'iter pre', 'image']
+        if n:
+            h += [f'iter post {rng.range(1, n)}', 'image', 'resume', 'image']
+            if rng.chance(1, 2):
+                h += [rng.choice(['freel', 'freer']) + f' {rng.below(n)}', 'image', 'iter post', 'image']
+        h += ['free', 'image']
+    elif mode == 'exhaustive':
         # every order, then a sub-tree free, iterate what is left, free the rest
         h += std_ops(rng, n)
         if n:
@@ -381,7 +417,8 @@ def list_history(rng, m, leaning, bushy):
         if t is None:
             return None
         return [perm[t[0]], relabel(t[1]), relabel(t[2])]
-    h = [tree_line(relabel(root), n), ' '.join(['lists'] + [str(perm[i]) for i in lists])]
+    h = [tree_line(relabel(root), n, pick_align(rng, n, rng.choice([None, 2, 4, 6, 'mixed']))),
+         ' '.join(['lists'] + [str(perm[i]) for i in lists])]
     h += ['trav list', 'iter list', 'image']
     total = len(Spec_for(h).trav('list', Spec_for(h).root))
     if total:
@@ -407,6 +444,12 @@ def gen(ctx, rng):
             hs.append(history(rng, s, 'exhaustive')); tags.append('exhaustive')
     ctx.cov['exhaustive_shapes_up_to_nodes'] = maxn
     ctx.cov['exhaustive_shape_count'] = len(hs)
+    # the same shapes with the nodes off the 8-byte grid: every node at address 2 mod 8, and a per-node mix of
+    # 0/2/4/6 mod 8 (every shape); every node at 4 and at 6 mod 8 (shapes up to 5 nodes)
+    for n in range(1, maxn + 1):
+        for s in shapes(n):
+            for a in (2, 'mixed') + ((4, 6) if n <= 5 else ()):
+                hs.append(history(rng, s, 'aligned', a)); tags.append(f'exhaustive-align-{a}')
     # degenerate shapes
     big = [200] if quick else [150, 199, 200]
     sizes = [1, 2, 3, 4, 5, 8, 13, 31, 64] + [rng.range(65, 120)] + ([] if quick else [127, 128])
@@ -419,11 +462,11 @@ def gen(ctx, rng):
             kinds = [kinds[rng.below(3)], kinds[3]]
         degenerate += [(k, f(n)) for k, f in kinds]
     for k, s in degenerate:
-        hs.append(history(rng, s, 'plain')); tags.append(k)
+        hs.append(history(rng, s, 'plain', 'any')); tags.append(k)
     # random shapes
     for _ in range(40 if quick else 400):
         n = rng.choice([rng.range(8, 20), rng.range(8, 20), rng.range(20, 60), rng.range(60, 200)])
-        hs.append(history(rng, random_shape(rng, n), rng.choice(['plain', 'plain', 'exhaustive', 'free-first']))); tags.append('random')
+        hs.append(history(rng, random_shape(rng, n), rng.choice(['plain', 'plain', 'exhaustive', 'free-first']), 'any')); tags.append('random')
     # list spines
     for m in list(range(0, 9)) + [rng.range(9, 40), rng.range(40, 90)]:
         for leaning in ('left', 'right'):
@@ -474,8 +517,9 @@ def parse_tree(line):
     return mk(g(w[2]))
 
 
-def renumber(tree, ops):
-    """relabel the nodes 0…n-1 in pre-order and rewrite the ops; ops naming a removed node are dropped"""
+def renumber(tree, ops, offs=None):
+    """relabel the nodes 0…n-1 in pre-order and rewrite the ops (each node keeps its byte offset); ops naming a
+    removed node are dropped"""
     m = {}
     def walk(t):
         if t is None:
@@ -485,7 +529,12 @@ def renumber(tree, ops):
         x[1] = walk(t[1]); x[2] = walk(t[2])
         return x
     t2 = walk(tree)
-    out = [tree_line(t2, len(m))]
+    noffs = None
+    if offs:
+        noffs = [0] * len(m)
+        for old, new in m.items():
+            noffs[new] = offs[old]
+    out = [tree_line(t2, len(m), noffs)]
     for line in ops:
         w = line.split()
         if w[0] == 'lists':
@@ -539,13 +588,21 @@ def shrink(ctx, exe, h, budget=250, seconds=60):
             budget -= 1
             if budget <= 0:
                 break
-            c = renumber(cand, cur[1:])
+            c = renumber(cand, cur[1:], align_of(cur[0]))
             if fails(c):
                 cur, tree, progress = c, parse_tree(c[0]), True
                 break
     ops = vlib.ddmin(cur[1:], lambda c: fails([cur[0]] + c), max_tests=40) if len(cur) > 2 else cur[1:]
     if fails([cur[0]] + ops):
         cur = [cur[0]] + ops
+    # simpler placement: all nodes on the 8-byte grid, else all at one offset, else as found
+    offs = align_of(cur[0])
+    if any(offs):
+        base = cur[0][:cur[0].index(' align')]
+        for cand in [base] + [f'{base} align {k}' for k in OFFSETS[1:]]:
+            if fails([cand] + cur[1:]):
+                cur = [cand] + cur[1:]
+                break
     return cur if fails_spec(ctx, exe, cur) else h
 
 
@@ -557,10 +614,11 @@ def report(ctx, exe, h):
     lo = max(0, (k or 0) - 1)
     ctx.violation({'obligation': 'bintree: implementation vs specification (recursive traversals, original links, post-order deallocation)',
                    'ops': ['reset'] + hh, 'shape': paren(parse_tree(hh[0])), 'nodes': int(hh[0].split()[1]),
+                   'node_address_offsets_mod_16': align_of(hh[0]) or 'all 0 (malloc alignment)',
                    'failing_op': hh[k] if k is not None and k < len(hh) else None, 'first_difference_at_output': k,
                    'expected': exp[lo:(k or 0) + 2], 'observed': a[lo:(k or 0) + 2], 'model': b[lo:(k or 0) + 2],
                    'engine': 'bintree', 'how_to_rerun': f'./check {ctx.pid} --replay <this file>'},
-                  key='shape:' + paren(parse_tree(hh[0])) + ':' + hashlib.sha1('\n'.join(hh[1:]).encode()).hexdigest()[:12])
+                  key='shape:' + paren(parse_tree(hh[0])) + ':' + ''.join(map(str, align_of(hh[0]))) + ':' + hashlib.sha1('\n'.join(hh[1:]).encode()).hexdigest()[:12])
 
 
 def compare(ctx, exe, hs, label):
@@ -641,12 +699,15 @@ def run(ctx):
                 break
     if ctx.broken and not ctx.violations:
         deeper_search(ctx, exe, vlib.Rng(ctx.seed + 7919))
-    hist = {}
+    hist, offhist = {}, {}
     for h, t in zip(hs, tags):
         hist[t] = hist.get(t, 0) + 1
-        ctx.count((paren(parse_tree(h[0])) if int(h[0].split()[1]) <= 60 else h[0], tuple(h[1:])), nontrivial=int(h[0].split()[1]) >= 2)
+        ctx.count((paren(parse_tree(h[0])) if int(h[0].split()[1]) <= 60 else h[0], tuple(align_of(h[0])), tuple(h[1:])), nontrivial=int(h[0].split()[1]) >= 2)
+        for o in set(align_of(h[0]) or [0]):
+            offhist[o] = offhist.get(o, 0) + 1
     ctx.cov['traces_validated_against_impl'] = agreed
     ctx.cov['histories_by_kind'] = hist
+    ctx.cov['histories_with_a_node_at_address_mod_8'] = {str(k): offhist[k] for k in sorted(offhist)}
     ctx.cov['ops_total'] = sum(len(h) for h in hs)
     ctx.cov['largest_tree_nodes'] = max(int(h[0].split()[1]) for h in hs)
     ctx.cov['exhaustive'] = False
@@ -656,7 +717,8 @@ def run(ctx):
     ctx.cov['rule'] = (f'every binary tree shape with 0…{ctx.cov["exhaustive_shapes_up_to_nodes"]} nodes (enumerated, {ctx.cov["exhaustive_shape_count"]} shapes), degenerate shapes (left/right spines, zig-zags, complete trees) up to 200 nodes, '
                        'seeded random shapes up to 200 nodes, left- and right-leaning list spines (0…90 list nodes, elements with and without sub-trees); per shape: recursive traversal, iterator to completion, '
                        'link image, iterator cut after k calls + image + resume, bintree_free_left/right of a random node, bintree_free with a really-freeing logging deallocator under ASan; '
-                       'node ids permuted in a third of the cases. distinct = distinct (shape, op list); non-trivial = at least 2 nodes')
+                       'node ids permuted in a third of the cases; node addresses at 0, 2, 4, 6 mod 8 (every small shape with all nodes at 2 mod 8 and with a per-node mix; shapes <= 5 nodes also all at 4 and at 6; '
+                       'larger shapes at random). distinct = distinct (shape, placement, op list); non-trivial = at least 2 nodes')
     ctx.assumptions.append(META['level_note'])
 
 
